@@ -392,6 +392,30 @@ impl State {
             );
             return;
         }
+        // C12: repeating the evaluation from an equal context state gives an equal result (no hidden state)
+        if check == "entry" {
+            let log2: Log = Default::default();
+            if let Ok(mut ctx2) = build_ctx(&case["ctx"], &log2) {
+                let again = guard(|| -> Result<V, E> {
+                    let tree = if level == "tree" { Some(build_operator_tree::<DefaultNumericTypes>(&src)?) } else { None };
+                    match (&mut ctx2, &tree) {
+                        (Ctx::HashMap(c), None) => call_string(kind, mode, &src, c),
+                        (Ctx::HashMap(c), Some(t)) => call_tree(kind, mode, t, c),
+                        (Ctx::ReadOnly(c), None) => call_string(kind, mode, &src, c),
+                        (Ctx::ReadOnly(c), Some(t)) => call_tree(kind, mode, t, c),
+                        (Ctx::Empty(c), None) => call_string_imm(kind, &src, c),
+                        (Ctx::Empty(c), Some(t)) => call_tree_imm(kind, t, c),
+                        (Ctx::EmptyBuiltin(c), None) => call_string_imm(kind, &src, c),
+                        (Ctx::EmptyBuiltin(c), Some(t)) => call_tree_imm(kind, t, c),
+                    }
+                });
+                match again {
+                    Ok(r2) if same_result(&obs, &r2) => {},
+                    Ok(r2) => self.fail(&check, format!("{src:?}: a second evaluation from an equal context gives {r2:?}, the first gave {obs:?}"), case, json!(null)),
+                    Err(p) => self.fail("panic", format!("{src:?}: second evaluation panicked at {p}"), case, json!({"panic": p})),
+                }
+            }
+        }
         if !det {
             return;
         }
